@@ -15,4 +15,4 @@ ASSUMPTIONS = ["ET.TreeBuilder.start/end/close build the tree they are told to b
 
 
 def run(project, rep):
-    P.p_rules(project, rep)
+    rep.run(P.p_rules, project, rep)
